@@ -168,14 +168,14 @@ func Generate(r *rng.R, o GenOpt) ClusterSpec {
 	n := o.MinStores + r.Intn(o.MaxStores-o.MinStores+1)
 	rules := r.Pct(o.RulesPct)
 	c.Cfg = CfgSpec{
-		MaxReplicas:    pickW(r, []int{1, 2, 3, 4, 5}, []int{5, 10, 55, 10, 20}),
-		RemoveDown:     r.Pct(93),
-		ReplaceOffline: r.Pct(93),
-		MakeUp:         r.Pct(93),
-		RemoveExtra:    r.Pct(93),
+		MaxReplicas:     pickW(r, []int{1, 2, 3, 4, 5}, []int{5, 10, 55, 10, 20}),
+		RemoveDown:      r.Pct(93),
+		ReplaceOffline:  r.Pct(93),
+		MakeUp:          r.Pct(93),
+		RemoveExtra:     r.Pct(93),
 		LocationReplace: r.Pct(93),
-		Rules:          rules,
-		Joint:          r.Pct(75),
+		Rules:           rules,
+		Joint:           r.Pct(75),
 	}
 	switch r.Pick(25, 35, 40) {
 	case 1:
@@ -291,7 +291,7 @@ func Generate(r *rng.R, o GenOpt) ClusterSpec {
 	lp := reg.Peers[li]
 	reg.Leader = &lp
 	if o.Malformed {
-		switch r.Pick(88, 3, 2, 3, 4) {
+		switch r.Pick(55, 8, 7, 16, 14) {
 		case 1:
 			reg.Leader = nil
 			tag("malformed:no-leader")
@@ -405,7 +405,9 @@ func role(i int) metapb.PeerRole {
 	return []metapb.PeerRole{metapb.PeerRole_Voter, metapb.PeerRole_Learner, metapb.PeerRole_IncomingVoter, metapb.PeerRole_DemotingVoter}[i]
 }
 
-func (p PeerSpec) Meta() *metapb.Peer { return &metapb.Peer{Id: p.ID, StoreId: p.Store, Role: role(p.Role)} }
+func (p PeerSpec) Meta() *metapb.Peer {
+	return &metapb.Peer{Id: p.ID, StoreId: p.Store, Role: role(p.Role)}
+}
 
 const gb = 1 << 30
 
@@ -544,8 +546,8 @@ func (bt *Built) Flags(s *core.StoreInfo) StoreFlags {
 	return StoreFlags{ID: s.GetID(), State: st,
 		Down: s.DownTime() > o.GetMaxStoreDownTime(), Disc: s.IsDisconnected(), Busy: s.IsBusy(), Low: s.IsLowSpace(o.GetLowSpaceRatio()),
 		NoAdd: !s.IsAvailable(storelimit.AddPeer), NoRemove: !s.IsAvailable(storelimit.RemovePeer),
-		Snap: uint64(s.GetSendingSnapCount()) > o.GetMaxSnapshotCount() || uint64(s.GetReceivingSnapCount()) > o.GetMaxSnapshotCount(),
-		Pend: o.GetMaxPendingPeerCount() > 0 && s.GetPendingPeerCount() > int(o.GetMaxPendingPeerCount()),
+		Snap:  uint64(s.GetSendingSnapCount()) > o.GetMaxSnapshotCount() || uint64(s.GetReceivingSnapCount()) > o.GetMaxSnapshotCount(),
+		Pend:  o.GetMaxPendingPeerCount() > 0 && s.GetPendingPeerCount() > int(o.GetMaxPendingPeerCount()),
 		Pause: !s.AllowLeaderTransfer(), RejectLdr: o.CheckLabelProperty(opt.RejectLeader, s.GetLabels())}
 }
 
